@@ -7,7 +7,7 @@ rsync -a --exclude .git --exclude res /repo/ $D/repo/
 python3 /verif/contracts/gen.py $D/repo
 (cd $D/repo && patch -s -p1 < $P) || { echo "PATCH FAILED"; rm -rf $D; exit 3; }
 for id in "$@"; do
-  GOVC_OUT=$D/out GOVC_REPO=$D/repo /verif/bin/govc check $id ${TIER:+--tier $TIER} 2>&1 | grep -E "VIOLATION|KNOWN|govc:" | cut -c1-250
+  GOVC_OUT=$D/out GOVC_REPO=$D/repo ${GOVC_BIN:-/verif/bin/govc} check $id ${TIER:+--tier $TIER} 2>&1 | grep -E "VIOLATION|KNOWN|govc:" | cut -c1-250
   echo "exit=${PIPESTATUS[0]}"
 done
 rm -rf $D
